@@ -41,13 +41,15 @@ BULK_OPS = [("extend", ["values"]), ("__iadd__", ["values"]), ("clear", []), ("r
 def op_worker(task):
     meth, params, is_int = task
     args = [Sym((p,), {ARG}, tags={"nonsentinel"}) for p in params]
-    it, outs, c = keyed.run_method("KeyedList", meth, args, facts=keyed.int_index_facts(is_int) if is_int is not None else None)
+    it, outs, c = keyed.run_method("KeyedList", meth, args, facts=keyed.int_index_facts(is_int) if is_int is not None else None,
+                                   configure=lambda cfg: setattr(cfg, "record_truth_tests", True))
     if outs is None:
         return {"task": task, "missing": True}
     rows = []
     for o in outs:
         rows.append({"kind": o.kind, "exc": o.value.cls if o.kind == "exc" else None, "trace": [tuple(e) for e in o.state.trace]})
-    return {"task": task, "rows": rows, "owner": c.qualname, "functions": sorted(it.functions_entered)}
+    truth = sorted({("/".join(map(str, t[0])), t[2]) for t in it.truth_tests})
+    return {"task": task, "rows": rows, "owner": c.qualname, "functions": sorted(it.functions_entered), "truth": truth}
 
 
 def _balance(trace):
@@ -179,6 +181,11 @@ def check(ctx, rep: Report):
                 keys = [e[3] for e in tr if e[0] == "W" and e[2].startswith("self/._list") and e[1] == "setitem"]
                 if any(k != "index_or_key" for k in keys):
                     idx_bad.append(f"assigns list position {keys} instead of the given index")
+        for tok, site in r.get("truth", []):
+            if tok.startswith("self/._dict/") and tok.count("/") == 2:       # an item looked up in the key index
+                fn, stmt = ctx.p.stmt_at(site)
+                rep.violate(Violation("C13.VAL", f"C13.VAL|truthiness|{fn}|{stmt}", f"{name}: `{stmt}` ({fn}) decides on the truthiness of a stored item (`{tok}`): falsy items (0, '', (), None) are treated as absent", site, fn))
+                rep.oblige("C13.VAL", f"{name}[no truthiness of stored items]", False, stmt)
         if nwrite == 0 and meth not in ():
             raise AnalysisError(f"C13: no store write observed in {name}")
         rep.oblige("C13.COH", name, not coh_bad, "; ".join(sorted(set(coh_bad))))
@@ -276,6 +283,36 @@ def check(ctx, rep: Report):
         rep.oblige("C13.KEY", f"KeyedList.{name}", not bad, "; ".join(bad))
         for b in bad:
             rep.violate(Violation("C13.KEY", f"C13.KEY|{name}", f"KeyedList.{name} {b}: integer keys are taken for positions / results disagree with the key index", f"{mrel}:{d[0].node.lineno}" if d else "", f"KeyedList.{name}"))
+    # membership: `x in kl` <=> x is a key of the index, or x equals (is / ==) an element of the list
+    it, outs, c = keyed.run_method("KeyedList", "__contains__", [Sym(("value",), {ARG}, tags={"nonsentinel"})], reducer=None,
+                                   configure=lambda cfg: setattr(cfg, "record_decisions", True), user_may_raise=False)
+    bad = []
+    npaths = 0
+    for o in outs or []:
+        if o.kind != "ok":
+            continue
+        npaths += 1
+        pos = []
+        for k, v in o.state.decisions:
+            if k[0] == "in":
+                item, cont = str(k[1]), str(k[2])
+                if item == "('tok', ('value',))" and ("'._dict'" in cont or "'._list'" in cont):
+                    pos.append(v)
+                elif "'._dict'" in cont or "'._list'" in cont:
+                    bad.append(f"membership is answered from `{item} in {cont}` (not the probed value itself): a non-member sharing a key with a member is reported present")
+            elif k[0] in ("is", "eq") and "'value'" in repr(k) and "'[]'" in repr(k):
+                pos.append(v)
+        got = o.value.value if isinstance(o.value, Const) else None
+        if got is None:
+            bad.append(f"membership result `{vrepr(o.value)}` is not decided by key membership / element equality")
+        elif bool(got) != any(pos):
+            bad.append(f"returns {got} on a path where (key present or element equal) is {any(pos)}")
+    if npaths < 4:
+        raise AnalysisError(f"C13.KEY: {npaths} normal paths through KeyedList.__contains__ (floor 4)")
+    rep.evaluations += npaths
+    rep.oblige("C13.KEY", "KeyedList.__contains__", not bad, "; ".join(sorted(set(bad))[:2]))
+    for b in sorted(set(bad))[:2]:
+        rep.violate(Violation("C13.KEY", f"C13.KEY|__contains__|{b[:50]}", f"KeyedList.__contains__: {b}", "", "KeyedList.__contains__"))
     d = ci.methods.get("index_for_key")
     src = ast.unparse(d[0].node) if d else ""
     ok = "self._list" in src and "self.key(" in src and "== key" in src and "KeyError" in src
